@@ -79,18 +79,19 @@ HIST_ASSUME = [
     "solving or writing a problem without any column is treated as out of scope (such histories are counted as inapplicable)",
     "a history is explored as a full tree without state merging: each item replays start + ops on a fresh object inside one QSexactStart..QSexactClear bracket",
 ]
-HIST_RULE = ("item = (start problem in {empty,1x1,testsuite3x2,ranged2x2,degenerate3x3,infeasible2x2,singleton3x3}, op_1..op_d) over the operation alphabet of "
+SW3 = hist("hist-sw3-san", "san", 3, weight=2, opts={"depth": 3, "reduced": 0, "sandwich": 1})   # solve ; any of the 66 operations ; solve
+HIST_RULE = ("item = (start problem in {empty,1x1,testsuite3x2,ranged2x2,degenerate3x3,infeasible2x2,singleton3x3,mip3x2-read (integer markers, read from LP text)}, op_1..op_d; option sandwich: op_1 and op_d range over the 4 solve entry points only) over the operation alphabet of "
              "harness/h_hist.c (66 concrete transitions; 'reduced' keeps the 24 that touch basis/cache/factorization); every item is executed on the real library "
              "in lock-step with the model; non-trivial = every op of the history was applicable in the state it was issued in")
 
 PLANS["C05"] = {
     "title": "re-solve after edits equals solve from scratch; no stale solution",
     "rule": HIST_RULE,
-    "quick": [hist("hist-d1-san", "san", 1), hist("hist-d2-san", "san", 2, weight=3), hist("hist-d3r-prod", "prod", 3, reduced=1, weight=3)],
-    "thorough": [hist("hist-d2-san", "san", 2), hist("hist-d3r-san", "san", 3, reduced=1, weight=4), hist("hist-d3-prod", "prod", 3, weight=10),
-                 hist("hist-d4r-prod", "prod", 4, reduced=1, weight=10)],
-    "bounds": {"quick": "all histories of depth <= 2 over the full alphabet; depth 3 over the reduced alphabet; 7 start problems",
-               "thorough": "depth 3 over the full alphabet, depth 4 over the reduced alphabet"},
+    "quick": [hist("hist-d1-san", "san", 1), hist("hist-d2-san", "san", 2, weight=3), SW3, hist("hist-d3r-prod", "prod", 3, reduced=1, weight=3)],
+    "thorough": [hist("hist-d2-san", "san", 2), SW3, hist("hist-d3r-san", "san", 3, reduced=1, weight=4), hist("hist-d3-prod", "prod", 3, weight=10),
+                 hist("hist-sw4-prod", "prod", 4, weight=6, opts={"depth": 4, "reduced": 0, "sandwich": 1}), hist("hist-d4r-prod", "prod", 4, reduced=1, weight=10)],
+    "bounds": {"quick": "all histories of depth <= 2 over the full alphabet; solve ; any operation ; solve over the full alphabet (sanitizer build); depth 3 over the reduced alphabet; 8 start problems",
+               "thorough": "depth 3 over the full alphabet, solve ; op ; op ; solve over the full alphabet, depth 4 over the reduced alphabet"},
     "evidence": {"states": ["histories"], "transitions": ["api_transitions"], "nontrivial": ["histories"]},
     "assumptions": HIST_ASSUME,
 }
@@ -160,9 +161,10 @@ PLANS["C16"] = {
              "number-rich family (0, 1, -1, 1/3, 2^53+1, 3*2^-1074, 10^30, infinite bounds) checked entry by entry (1 ulp / 2^(1-prec) relative; zero to zero; infinity to the target's infinity; "
              "identical sparsity structure, senses and parameters); family 'cpar': start problem x optional edit x 12 parameter settings (pricing, scaling, iteration limit 1/2, objective limits on both sides "
              "of the optimum) set before the copy x 4 entry points: original and copy solved cold by the same entry must return the same value, status and optimum (shows that what the parameters do - derived fields - was copied, not only what the getters return)"),
-    "quick": [fam("copy-s1-san", "san", "copy", {"steps": 1}, weight=3, crash_props=["C17", "C16"]),
+    "quick": [fam("cpar-prod", "prod", "cpar", {}, weight=2, crash_props=["C17", "C16"]),
               fam("lowp-SN1-prod", "prod", "lowp", {"fam": "SN1"}, weight=2, crash_props=["C17", "C16"]),
-              fam("cpar-prod", "prod", "cpar", {}, weight=2, crash_props=["C17", "C16"])],
+              fam("copy-s1-san", "san", "copy", {"steps": 1}, weight=3, crash_props=["C17", "C16"])],
+    "deadline": {"quick": 1200, "thorough": 3000},
     "thorough": [fam("copy-s2-prod", "prod", "copy", {"steps": 2}, weight=10, crash_props=["C17", "C16"]),
                  fam("copy-s1-san", "san", "copy", {"steps": 1}, weight=3, crash_props=["C17", "C16"]),
                  fam("lowp-SN1-san", "san", "lowp", {"fam": "SN1"}, weight=2, crash_props=["C17", "C16"]),
@@ -341,7 +343,7 @@ def locate_diff(ra, rb, seed, tier):
 
 
 _c17_quick_base = [
-    hist("hist-d2-san", "san", 2, weight=2),
+    hist("hist-d2-san", "san", 2, weight=2), SW3,
     hist("inv-d1r-san", "san", 1, reduced=1, family="inv", weight=3),
     lp("S0mk-sanl1-k1x", "sanl1", "S0mk", "k1x", weight=3),
     fam("rd-LP-k1-san", "san", "rd", {"fmt": "LP", "k": 1}, weight=1),
@@ -440,7 +442,7 @@ def rdr(id, variant, opts, weight=1, **kw):
     return fam(id, variant, "rdr", opts, weight=weight, crash_props=["C17", "C11"], timeout=20, **kw)
 
 
-_c11_q = [rdr("rdr-trunc", "sanl1", {"mode": "trunc"}), rdr("rdr-trunc-reader", "sanl1", {"mode": "trunc", "via": "reader"}), rdr("rdr-trunc-gz", "sanl1", {"mode": "trunc", "comp": "gz"}),
+_c11_q = [rdr("rdr-own", "sanl1", {"mode": "own"}), rdr("rdr-own-reader", "sanl1", {"mode": "own", "via": "reader"}), rdr("rdr-trunc", "sanl1", {"mode": "trunc"}), rdr("rdr-trunc-reader", "sanl1", {"mode": "trunc", "via": "reader"}), rdr("rdr-trunc-gz", "sanl1", {"mode": "trunc", "comp": "gz"}),
           rdr("rdr-trunc-bz2", "sanl1", {"mode": "trunc", "comp": "bz2"}), rdr("rdr-long", "sanl1", {"mode": "long"}), rdr("rdr-long-reader", "sanl1", {"mode": "long", "via": "reader"}),
           rdr("rdr-tok-lp-k3", "sanl1", {"mode": "tok", "fmt": "lp", "k": 3}, weight=2), rdr("rdr-tok-lp-k2-reader", "sanl1", {"mode": "tok", "fmt": "lp", "k": 2, "via": "reader"}),
           rdr("rdr-tok-mps-k2", "sanl1", {"mode": "tok", "fmt": "mps", "k": 2}), rdr("rdr-tok-mps-k2-reader", "sanl1", {"mode": "tok", "fmt": "mps", "k": 2, "via": "reader"}),
@@ -449,7 +451,7 @@ PLANS["C11"] = {
     "title": "no input file can crash, hang or corrupt the reader",
     "rule": ("exhaustive enumeration of finite neighbourhoods of 13 embedded valid files (6 LP, 5 MPS incl. SOS/REFROW, 2 basis): mode tok = every sequence of <= k tokens over a 24/33/11-token alphabet appended to each valid prefix; "
              "mode mut = every single token edit (delete, duplicate, replace by each alphabet token, swap) at every token position and every byte edit (delete, 0x00, 0xFF, newline, ':', '/', '-', '9') at every byte position, radius=2 adds "
-             "every pair of token edits within a 6-token window; mode trunc = every byte prefix, plain and as a gzip/bzip2 stream cut at every byte; mode long = names, lines and digit strings around the internal buffer sizes "
+             "every pair of token edits within a 6-token window; mode own = every token replaced by every other distinct token of the same file (cross references such as a ranged row named as OBJNAME, 40k files); mode trunc = every byte prefix, plain and as a gzip/bzip2 stream cut at every byte; mode long = names, lines and digit strings around the internal buffer sizes "
              "(126..256, 131070..131073 characters, 1..4000 digits). Each input goes through mpq_QSread_prob (and via=reader: the line-reader API with a memory error collector, every record walked and printed) or the basis readers; "
              "oracle: the forked worker survives (sanitizer build), returns within 20 s, NULL or a problem that passes the full query-conformance dump against its own read-back, can be written in both formats, solved and freed; "
              "fd 1/2 stay empty; allocation balance is zero; non-trivial = input differs from every base file and is not empty. Inputs with exponents of >= 5 digits are out of scope as the property says"),
@@ -463,8 +465,8 @@ PLANS["C11"] = {
     "assumptions": ["the claim is over the enumerated neighbourhoods, not over all byte strings of up to 64 KiB",
                     "sanl1 = sanitizer build with the one-level mpf ladder (the solve after a successful read is a smoke test, not the subject)"],
 }
-for _pid, _runs in (("C17", [rdr("rdr-mut", "sanl1", {"mode": "mut"}, weight=3), rdr("rdr-tok-lp-k3", "sanl1", {"mode": "tok", "fmt": "lp", "k": 3}, weight=1), rdr("rdr-trunc", "sanl1", {"mode": "trunc"}, weight=1)]),
-                    ("C18", [rdr("rdr-mut-reader", "sanl1", {"mode": "mut", "via": "reader"}, weight=3), rdr("rdr-trunc-reader", "sanl1", {"mode": "trunc", "via": "reader"}, weight=1), rdr("rdr-tok-mps-k2-reader", "sanl1", {"mode": "tok", "fmt": "mps", "k": 2, "via": "reader"}, weight=1)]),
+for _pid, _runs in (("C17", [rdr("rdr-own", "sanl1", {"mode": "own"}, weight=1), rdr("rdr-mut", "sanl1", {"mode": "mut"}, weight=3), rdr("rdr-tok-lp-k3", "sanl1", {"mode": "tok", "fmt": "lp", "k": 3}, weight=1), rdr("rdr-trunc", "sanl1", {"mode": "trunc"}, weight=1)]),
+                    ("C18", [rdr("rdr-own-reader", "sanl1", {"mode": "own", "via": "reader"}, weight=1), rdr("rdr-mut-reader", "sanl1", {"mode": "mut", "via": "reader"}, weight=3), rdr("rdr-trunc-reader", "sanl1", {"mode": "trunc", "via": "reader"}, weight=1), rdr("rdr-tok-mps-k2-reader", "sanl1", {"mode": "tok", "fmt": "mps", "k": 2, "via": "reader"}, weight=1)]),
                     ("C20", [rdr("rdr-mut", "sanl1", {"mode": "mut"}, weight=3), rdr("rdr-long", "sanl1", {"mode": "long"}, weight=1)])):
     for _r in _runs:
         _r["crash_props"] = sorted(set(_r["crash_props"] + [_pid]))
